@@ -12,6 +12,8 @@
 //	           the stream's pattern (o = stdout, e = stderr; see pat) in separate writes of C bytes
 //	argv       --c15-exit=K --c15-out=HEX --c15-dump=PATH --c15-hold=PATH: the same directives as arguments (they win);
 //	           with --c15-hold the child, after writing its report, waits until that file exists (<= 60 s)
+//	           --c15-read=line | --c15-read=N (or C15X_READ): read exactly one line / N bytes of stdin, byte by byte,
+//	           instead of everything, and report them
 //	C15X_BG    decimal milliseconds: before exiting, start a detached DESCENDANT (this program
 //	           re-executed with C15X_ROLE=late) that outlives the child, sleeps that long, then
 //	           writes C15X_LATE_OUT (hex) to the inherited stdout and C15X_LATE_ERR (hex) to the
@@ -47,6 +49,7 @@ type report struct {
 	LateOut  string   `json:"late_out"` // hex: written by the descendant to the inherited stdout
 	LateErr  string   `json:"late_err"` // hex
 	Plan     string   `json:"plan"`
+	StdinHex string   `json:"stdin_hex"` // with --c15-read: the bytes read
 }
 
 // pat is byte i of the pattern of a stream: position dependent (lost, repeated or reordered bytes show), printable,
@@ -58,6 +61,56 @@ func pat(i, salt int) byte {
 	return byte(33 + (i*131+(i>>8)*17+salt)%94)
 }
 
+const progress = "progress 12%\r"
+
+func planByte(kind string, i, salt int) byte {
+	switch kind {
+	case "o", "e":
+		return pat(i, salt)
+	case "O", "E":
+		return byte(33 + (i*131+(i>>8)*17+salt)%94)
+	case "on", "en":
+		return '\n'
+	case "or", "er":
+		return progress[i%len(progress)]
+	case "oz", "ez":
+		return 0
+	}
+	return '?'
+}
+
+// readPortion reads exactly one line (byte by byte, so that nothing beyond it is consumed) or exactly n bytes
+func readPortion(how string) []byte {
+	var got []byte
+	one := make([]byte, 1)
+	if how == "line" {
+		for {
+			n, err := os.Stdin.Read(one)
+			if n == 1 {
+				got = append(got, one[0])
+				if one[0] == '\n' {
+					break
+				}
+			}
+			if err != nil || n == 0 {
+				break
+			}
+		}
+		return got
+	}
+	want, _ := strconv.Atoi(how)
+	for len(got) < want {
+		n, err := os.Stdin.Read(one)
+		if n == 1 {
+			got = append(got, one[0])
+		}
+		if err != nil || n == 0 {
+			break
+		}
+	}
+	return got
+}
+
 func runPlan(plan string) {
 	off := map[string]int{}
 	for _, step := range strings.Split(plan, ";") {
@@ -67,8 +120,11 @@ func runPlan(plan string) {
 		}
 		n, _ := strconv.Atoi(f[1])
 		c, _ := strconv.Atoi(f[2])
+		// f[0]: o / e the pattern (a newline at every 1000th position); O / E the pattern WITHOUT newlines (one long
+		// line); on / en newlines; or / er "\r" progress output; oz / ez NUL bytes.  Offsets run per stream.
+		st := strings.ToLower(f[0][:1])
 		w, salt := os.Stdout, 0
-		if f[0] == "e" {
+		if st == "e" {
 			w, salt = os.Stderr, 5
 		}
 		if c <= 0 {
@@ -81,10 +137,10 @@ func runPlan(plan string) {
 			}
 			buf := make([]byte, k)
 			for j := range buf {
-				buf[j] = pat(off[f[0]]+j, salt)
+				buf[j] = planByte(f[0], off[st]+j, salt)
 			}
 			w.Write(buf)
-			off[f[0]] += k
+			off[st] += k
 			n -= k
 		}
 	}
@@ -119,7 +175,7 @@ func main() {
 	errb, _ := hex.DecodeString(os.Getenv("C15X_ERR"))
 	// directives given as arguments (--c15-exit=K --c15-out=HEX --c15-dump=PATH --c15-hold=PATH) override the
 	// environment: concurrent calls of one process share its environment, not their argument lists
-	dumpPath, holdPath := os.Getenv("C15X_DUMP"), ""
+	dumpPath, holdPath, readHow := os.Getenv("C15X_DUMP"), "", os.Getenv("C15X_READ")
 	for _, a := range os.Args[1:] {
 		switch {
 		case strings.HasPrefix(a, "--c15-exit="):
@@ -130,6 +186,8 @@ func main() {
 			dumpPath = a[11:]
 		case strings.HasPrefix(a, "--c15-hold="):
 			holdPath = a[11:]
+		case strings.HasPrefix(a, "--c15-read="):
+			readHow = a[11:]
 		}
 	}
 	if p := dumpPath; p != "" {
@@ -140,7 +198,14 @@ func main() {
 		for _, e := range os.Environ() {
 			r.Env = append(r.Env, hex.EncodeToString([]byte(e)))
 		}
-		in, _ := ioutil.ReadAll(os.Stdin)
+		var in []byte
+		if readHow != "" {
+			// only its own portion of the caller's stdin: the rest is for whoever reads next
+			in = readPortion(readHow)
+			r.StdinHex = hex.EncodeToString(in)
+		} else {
+			in, _ = ioutil.ReadAll(os.Stdin)
+		}
 		h := sha256.Sum256(in)
 		r.StdinSha = hex.EncodeToString(h[:])
 		r.StdinLen = len(in)
